@@ -12,11 +12,12 @@ import TypedpyModel.Props.C13Tie
 #print axioms Typedpy.C13.same_fields_and_required
 #print axioms Typedpy.C13.same_behaviour
 #print axioms Typedpy.C13.statement_partial
-#print axioms Typedpy.C13.counterexample_pep604_dropped
-#print axioms Typedpy.C13.counterexample_pep604_nested
-#print axioms Typedpy.C13.counterexample_field_pipe_none
-#print axioms Typedpy.C13.counterexample_field_pipe_generic
-#print axioms Typedpy.C13.counterexample_future_50
+#print axioms Typedpy.C13.fixed_pep604_plain
+#print axioms Typedpy.C13.fixed_pep604_nested
+#print axioms Typedpy.C13.fixed_field_pipe_none
+#print axioms Typedpy.C13.fixed_field_pipe_generic
+#print axioms Typedpy.C13.elabField_future_irrelevant
+#print axioms Typedpy.C13.fixed_future_long
 #print axioms Typedpy.C13.counterexample_falsy_default_kw
 #print axioms Typedpy.C13.counterexample_union_duplicate
 #print axioms Typedpy.C13.statement_false
